@@ -74,7 +74,9 @@ func writeSymHash(symHash SymHash, str string) {
 func SymHash2Str(h SymHash) (PanObject, bool) {
 	// make table access goroutine-safe (RLock allow other goroutines to read)
 	lock.RLock()
+	verifTrace("RLock", "")
 	defer lock.RUnlock()
+	defer verifTrace("RUnlock", "")
 	defer verifTrace("ReadStrEnd", "")
 	verifTrace("ReadStr", "")
 	strObj, ok := strTable[h]
